@@ -167,6 +167,17 @@ class Env:
 
             deploy._vf_c26 = True
             FutureConnector.deploy = deploy
+            real_undeploy = FutureConnector.undeploy
+
+            async def undeploy(self, external):  # classification aid: did undeploy skip an in-flight deploy?
+                r = await real_undeploy(self, external)
+                if self.deploying and self._connector is None and not self.deploy_event.is_set():
+                    from vf.harness.c26_fake import REC
+
+                    REC.ev("future-undeploy-skipped-inflight", self.deployment_name)
+                return r
+
+            FutureConnector.undeploy = undeploy
 
 
 async def run_case_async(env, case, beat=0.004, wall=60.0):
@@ -337,7 +348,7 @@ def judge(case, obs):
     def ensure(i, name):
         if i not in inst:
             inst[i] = {"name": name, "state": "new", "dcall": None, "ddone": None, "ucall": None,
-                       "udone": None, "ucalls": 0, "dcalls": 0, "wraps_iid": None}
+                       "udone": None, "ucalls": 0, "dcalls": 0, "wraps_iid": None, "dfail": None}
             by_name[name].append(i)
 
     def up_sometime_in(name, t0, t1):
@@ -374,6 +385,7 @@ def judge(case, obs):
             inst[iid]["ddone"] = clock
         elif kind == "deploy-fail":
             inst[iid]["state"] = "failed"
+            inst[iid]["dfail"] = clock
             fails_seen.append((clock, name, extra))
         elif kind == "undeploy-call":
             x = inst[iid]
@@ -478,13 +490,15 @@ def classify(case, obs, v, inst):
         return any(n == name and c_in < t < c_out for n, c_in, c_out in ucalls.values())
 
     def orphaned_lazy(i):
-        """F-C26d precondition: instance i of a lazy deployment was still deploying when the manager
-        unregistered its name (FutureConnector.undeploy did nothing), and nobody undeployed it since."""
+        """F-C26d precondition: while instance i of a lazy deployment was still deploying, the
+        FutureConnector's undeploy() returned without waiting for it (observed at the FutureConnector
+        itself), and nobody undeployed the instance since."""
         x = inst.get(i)
         if x is None or x["name"] not in lazy or x["dcall"] is None or x["ucalls"]:
             return False
-        end = x["ddone"] if x["ddone"] is not None else 10 ** 9
-        return any(k == "mgr-unregister" and n == x["name"] and x["dcall"] < c < end for c, k, n in mgr)
+        end = x["ddone"] or x["dfail"] or 10 ** 9
+        return any(k == "future-undeploy-skipped-inflight" and n == x["name"] and x["dcall"] < c < end
+                   for c, k, n, _, _ in obs["events"])
 
     def kept_middle_undeployed(x, before):
         """F-C26a precondition: undeploy(x) was entered (request or cascade) before `before`, x stayed
@@ -510,7 +524,10 @@ def classify(case, obs, v, inst):
     if rule == "R3" and what == "undeploy-called-on-deploying" and reincarnated(v["name"], inst[v["iid"]]["dcall"]):
         return M_E
     if rule == "R3" and what == "inner-undeployed-under-live-wrapper" \
-            and reincarnated(v["wrapper"], inst[v["wrapper_iid"]]["dcall"]):
+            and (reincarnated(v["wrapper"], inst[v["wrapper_iid"]]["dcall"]) or reincarnated(v["wrapper"], v["t"])):
+        # second form: the wrapper's name was registered again while the undeploy of its old incarnation
+        # was still running (e.g. waiting for an in-flight lazy deploy); undeploying the NEW incarnation
+        # then frees the inner deployment under the old, still live connector
         return M_E
     if rule == "R4" and v.get("iid") is not None and what.startswith(("left-", "not-undeployed")) \
             and v["name"] not in lazy and reincarnated(v["name"], inst[v["iid"]]["dcall"]):
@@ -584,7 +601,7 @@ def classify(case, obs, v, inst):
 
 def trace_hash(obs):
     return digest([(k, n, x if k.startswith("req") else None) for _, k, n, _, x in obs["events"]
-                   if not k.startswith("mgr-")], 12)
+                   if not k.startswith(("mgr-", "future-"))], 12)
 
 
 # ----------------------------------------------------------------------------------------------
